@@ -10,12 +10,13 @@ cd $wt && git checkout -q -- . && git clean -fdq
 git checkout -q --detach $(git -C /repo rev-parse HEAD) || exit 2
 git apply --check $d/patch.diff || { echo "PATCH DOES NOT APPLY"; exit 2; }
 cp $d/demo_test.go $pkg/zz_demo_test.go
+RACE=$(python3 -c "import json;print('-race' if json.load(open('$d/meta.json')).get('needs_race') else '')")
 echo "-- demo on clean tree (must pass)"
-go1.26 test -vet=off -count=1 -run 'Demo' ./$pkg/ 2>&1 | tail -3; clean_rc=${PIPESTATUS[0]}
+go1.26 test $RACE -vet=off -count=1 -run 'Demo' ./$pkg/ 2>&1 | tail -3; clean_rc=${PIPESTATUS[0]}
 git apply $d/patch.diff
 echo "-- build with patch"; go1.26 build ./... || { echo BUILD FAILS; exit 2; }
 echo "-- demo with patch (must fail)"
-go1.26 test -vet=off -count=1 -run 'Demo' ./$pkg/ 2>&1 | tail -3; mut_rc=${PIPESTATUS[0]}
+go1.26 test $RACE -vet=off -count=1 -run 'Demo' ./$pkg/ 2>&1 | tail -3; mut_rc=${PIPESTATUS[0]}
 rm -f $pkg/zz_demo_test.go
 echo "-- full suite with patch (stable baseline tests must pass)"
 go1.26 test -vet=off -count=1 -json ./... 2>/dev/null > /tmp/seedtest_$id.json
